@@ -399,6 +399,10 @@ def owner(unit, f):
     # a call of a function that creates / deletes / alters files (declared `requires false`): C13, whatever the unit
     if f.kind == "precondition" and f.snippet.startswith("false@"):
         return "C13"
+    # the fixed file names of the built-in endpoints (index.html, style.css, ...) are plain names: an absolute or climbing name leaves
+    # the served directory (C01) and also makes the endpoint serve something other than the tree's own file (C02)
+    if "plain_name(" in f.snippet:
+        return ("C01", "C02")
     if any(w in f.snippet for w in CONTAINMENT_WORDS) or f.fn.startswith("URL::is_path_inside_root"):
         return "C01"
     if unit == "static":
